@@ -19,6 +19,7 @@ func checkC02(r *Run) {
 	ruleFloatRendering(r, p)
 	ruleRawCBORAlphabet(r, p)
 	ruleNetText(r, p)
+	ruleA12Copy(r, p) // two loggers appending into one context array corrupt each other's fields (C05's rule)
 	ruleA4Confine(r, p)
 	ruleA4JSON(r, p) // strings decode back only if every escape denotes the character it replaces
 	if r.Tier == "thorough" {
